@@ -39,8 +39,8 @@ NATURAL = {     # naturally failing programs, one for every pass that can fail
     'encode-register': 'a:\nadd foo, x1, x2\n',
     'data-range': 'a:\ndb 256\n',
 }
-HEX_VALID = [None, '0', '0x08000000', '0xffffff00']
-HEX_INVALID = ['zz', '0x', '-1', '4294967296', '0xffffffff']
+HEX_VALID = [None, '0', '0x08000000', '0xffffff00', 'END']        # END = 2^32 - len(program): the last offset that fits
+HEX_INVALID = ['zz', '0x', '-1', '4294967296', '0xffffffff', 'END+1', 'END+2']
 SENT = {'out': b'OLD-BINARY\x00\x01', 'labels': b'old_label 0x00000042\n', 'hex': b':00000001FF\nOLD-HEX\n'}
 
 
@@ -129,7 +129,11 @@ def cli_case(ctx, case):
         labels = {}
         incs = ([inc_dir] if '-i' in argv else []) + ([os.path.join(os.path.dirname(asm.__file__), 'definitions')] if case['prog'] == 'defs' else [])
         exp = (bytes(asm.assemble(main, compress=case['compress'], include_dirs=incs, labels=labels)), labels)
-    must_fail = bool(crash) or case['hex'] in HEX_INVALID
+    if case['hex'] in ('END', 'END+1', 'END+2') and exp:
+        # resolve the symbolic boundary offsets now that the program length is known
+        case = dict(case, hex_symbol=case['hex'], hex=hex((1 << 32) - len(exp[0]) + {'END': 0, 'END+1': 1, 'END+2': 2}[case['hex']]))
+        argv[argv.index('--hex-offset') + 1] = case['hex']
+    must_fail = bool(crash) or case['hex'] in HEX_INVALID or case.get('hex_symbol') in HEX_INVALID
     if case['hex'] == '0xffffff00' and exp and len(exp[0]) > 0x100:
         must_fail = True
     orig = fired = None
@@ -153,11 +157,11 @@ def cli_case(ctx, case):
     if must_fail:
         ctx.count('failing_runs')
         if st == 0:
-            ctx.violation('%s:fail:%s:exit-0' % (PROP, tag if not case['hex'] in HEX_INVALID or crash else 'hex-' + str(case['hex'])), 'run that must fail (%s, hex=%s) exits 0: argv %s' % (crash, case['hex'], argv), 'cli_case', case,
+            ctx.violation('%s:fail:%s:exit-0' % (PROP, tag if crash else 'hex-' + str(case.get('hex_symbol', case['hex']))), 'run that must fail (%s, hex=%s) exits 0: argv %s' % (crash, case['hex'], argv), 'cli_case', case,
                           expected='non-zero exit', observed=obs)
         changed = [k for k in files if now[k] != SENT[k]]
         if changed:
-            why = tag if crash else 'hex-' + str(case['hex'])
+            why = tag if crash else 'hex-' + str(case.get('hex_symbol', case['hex']))
             ctx.violation('%s:fail:%s:modified-%s' % (PROP, why, '+'.join(changed)), 'failing run (%s, hex=%s, exit %r) modified the existing %s file(s): argv %s'
                           % (crash, case['hex'], st, changed, argv), 'cli_case', case, expected='older files untouched', observed=obs)
         return
